@@ -123,6 +123,8 @@ def lay_prog(ctx):
         ctx.check(True, "excluded layout")
         return
     canon = "\n".join(lines) + "\n"
+    if p["var"] == "trail":
+        phys[-1] = phys[-1] + " ! end"
     laid = "\n".join(lines[:li] + phys + lines[li + 1:]) + "\n"
     ctx.observe("laid", laid)
     t0 = _tree(ctx, canon, p["std"], p["ic"], "canonical program rejected")
